@@ -224,6 +224,7 @@ package ggql
 //@ func (*Directive).Resolve
 //@   props C17
 //@   check panic {C03}
+//@   check frame {C17}
 //@   requires t != nil && field != nil
 //@   ensures[name] field.Name == "name" ==> result == box(t.N) && err == nil
 //@   ensures[description] field.Name == "description" ==> result == box(t.Desc) && err == nil
@@ -288,6 +289,7 @@ package ggql
 //@ func (*Object).Resolve
 //@   props C17
 //@   check panic {C03}
+//@   check frame {C17}
 //@   requires t != nil && field != nil
 //@   -- memory-model assumption: the embedded field list of an existing object lies below the allocation bound
 //@   requires allocated(t.fields)
@@ -300,7 +302,9 @@ package ggql
 //@   ensures[fields-current] field.Name == "fields" && !(is(args["includeDeprecated"], bool) && as(args["includeDeprecated"], bool)) ==> err == nil && is(result, *fieldList) && as(result, *fieldList) != nil && keptFields(as(result, *fieldList), t.fields, len(t.fields.list))
 //@ -- (not claimed: the completeness direction needs the names / all-kept invariants, which the solvers do not discharge)
 //@ -- ensures[fields-current-complete] field.Name == "fields" && !(is(args["includeDeprecated"], bool) && as(args["includeDeprecated"], bool)) ==> is(result, *fieldList) && as(result, *fieldList) != nil && allKept(as(result, *fieldList), t.fields, len(t.fields.list))
-//@   ensures[interfaces] field.Name == "interfaces" ==> result == box(t.Interfaces) && err == nil
+//@   -- a list view the library resolves itself (a ListResolver over exactly the declared interfaces, in order): a bare []Type
+//@   -- would be handed to the application's AnyResolver when one is installed
+//@   ensures[interfaces] field.Name == "interfaces" ==> err == nil && is(result, *typeList) && as(result, *typeList) != nil && fresh(as(result, *typeList)) && as(result, *typeList).list == t.Interfaces
 //@   ensures[possibleTypes] field.Name == "possibleTypes" ==> result == nil && err == nil
 //@   ensures[enumValues] field.Name == "enumValues" ==> result == nil && err == nil
 //@   ensures[inputFields] field.Name == "inputFields" ==> result == nil && err == nil
@@ -308,6 +312,9 @@ package ggql
 //@   assigns fresh
 //@   loop 0: invariant[bounds] 0 <= rangeindex+1 && rangeindex+1 <= len(t.fields.list)
 //@           invariant[fresh] addrof(list) != nil && fresh(addrof(list))
+//@           invariant[own-index] addrof(list).dict == nil || fresh(addrof(list).dict)
+//@           invariant[own-array] addrof(list).list == nil || fresh(addrof(list).list)
+//@           invariant[distinct-arrays] len(t.fields.list) == 0 || !samearray(addrof(list).list, t.fields.list)
 //@           invariant[src] t.fields.list == old(t.fields.list)
 //@           invariant[ok] fieldsOk(t.fields)
 //@           invariant[kept] keptFields(addrof(list), t.fields, rangeindex+1)
@@ -352,6 +359,7 @@ package ggql
 //@ func (*Interface).Resolve
 //@   props C17
 //@   check panic {C03}
+//@   check frame {C17}
 //@   requires t != nil && field != nil
 //@   requires t.Root != nil && t.Root.types != nil
 //@   ensures[kind] field.Name == "kind" ==> result == box("INTERFACE") && err == nil
@@ -369,6 +377,7 @@ package ggql
 //@ func (*Union).Resolve
 //@   props C17
 //@   check panic {C03}
+//@   check frame {C17}
 //@   requires t != nil && field != nil
 //@   ensures[kind] field.Name == "kind" ==> result == box("UNION") && err == nil
 //@   ensures[name] field.Name == "name" ==> result == box(t.N) && err == nil
@@ -401,6 +410,7 @@ package ggql
 //@ func (*Enum).Resolve
 //@   props C17
 //@   check panic {C03}
+//@   check frame {C17}
 //@   requires t != nil && field != nil
 //@   requires allocated(t.values)
 //@   requires valuesOk(t.values)
@@ -417,6 +427,9 @@ package ggql
 //@   assigns fresh
 //@   loop 0: invariant[bounds] 0 <= rangeindex+1 && rangeindex+1 <= len(t.values.list)
 //@           invariant[fresh] addrof(list) != nil && fresh(addrof(list))
+//@           invariant[own-index] addrof(list).dict == nil || fresh(addrof(list).dict)
+//@           invariant[own-array] addrof(list).list == nil || fresh(addrof(list).list)
+//@           invariant[distinct-arrays] len(t.values.list) == 0 || !samearray(addrof(list).list, t.values.list)
 //@           invariant[src] t.values.list == old(t.values.list)
 //@           invariant[ok] valuesOk(t.values)
 //@           invariant[kept] keptValues(addrof(list), t.values, rangeindex+1)
